@@ -52,6 +52,7 @@ type c06Exp struct {
 	inflight int
 	batches  [][]string
 	seen     map[string]int
+	returned map[string]bool // the Export call that carried the record has returned
 	lastSeq  map[byte]int
 	sd, ff   int
 	closedOK bool
@@ -122,6 +123,9 @@ func (e *c06Exp) Export(ctx context.Context, rs []Record) error {
 		}
 	}
 	e.inflight--
+	for _, id := range ids {
+		e.returned[id] = true
+	}
 	if err != nil {
 		e.failed++
 	}
@@ -161,7 +165,7 @@ func c06Body(cfg c06Cfg, sc c06Scn, res *string) func(x *sched.Exec) {
 	return func(x *sched.Exec) {
 		var logged uint64
 		c06Logged = &logged
-		e := &c06Exp{x: x, max: cfg.b, faults: cfg.faults, seen: map[string]int{}, lastSeq: map[byte]int{}}
+		e := &c06Exp{x: x, max: cfg.b, faults: cfg.faults, seen: map[string]int{}, returned: map[string]bool{}, lastSeq: map[byte]int{}}
 		bp := NewBatchProcessor(e, WithMaxQueueSize(cfg.q), WithExportMaxBatchSize(cfg.b), WithExportBufferSize(cfg.buf))
 		emittedAt := map[string]int{}
 		// harness clock: one tick per recorded event. Threads run one at a time, so the order of the
@@ -184,7 +188,9 @@ func c06Body(cfg c06Cfg, sc c06Scn, res *string) func(x *sched.Exec) {
 				if firstShutdownAt >= 0 && at >= firstShutdownAt {
 					continue
 				}
-				if at < calledAt && e.seen[id] == 0 {
+				// "passed to the exporter when the call returns": the Export call carrying it is over (an
+				// Export still in progress when ForceFlush / Shutdown returns has flushed nothing yet)
+				if at < calledAt && (e.seen[id] == 0 || !e.returned[id]) {
 					missing = append(missing, id)
 				}
 			}
@@ -304,6 +310,9 @@ func c06Jobs(thorough bool) []c06Job {
 	// two emitters that each flush their own record: a ForceFlush may not ride on another one that
 	// started (and emptied the queue) before this caller's record was emitted
 	L11 := c06Scn{"L11", [][]string{{"M:a1", "F"}, {"M:b1", "F"}}, []string{"S"}}
+	// one record, moved to the export buffer by the poll goroutine (batch size 1), and a ForceFlush
+	// from another thread that finds queue and buffer empty while the record is on its way to Export
+	L12 := c06Scn{"L12", [][]string{{"M:a1"}, {"F"}}, []string{"S"}}
 	q2b1, q2b2, q1b1 := c06Cfg{2, 1, 1, false}, c06Cfg{2, 2, 1, false}, c06Cfg{1, 1, 1, false}
 	q3b2, q4b2 := c06Cfg{3, 2, 1, false}, c06Cfg{4, 2, 2, false}
 	q3b2f, q2b1f := c06Cfg{3, 2, 1, true}, c06Cfg{2, 1, 1, true}
@@ -316,7 +325,8 @@ func c06Jobs(thorough bool) []c06Job {
 			{L8, q3b2f, 0, 2}, {L8, q2b1f, 0, 2}, {L5, q2b2, 1, 1},
 			{L1, q3b2f, 0, 1}, {L4, q2b2, 1, 0}, {L10, q4b2buf1, 1, 0},
 			{L11, q2b1, 1, 0}, {L11, q2b2, 1, 0},
-			{L7, q2b1, 1, 0}, {L7, q2b1f, 0, 1}, // a Shutdown cut short, then another: where two recorded findings show
+			{L7, q2b1, 1, 0}, {L7, q2b1f, 0, 1},
+			{L12, q2b1, 2, 0}, {L12, q1b1, 1, 1}, // a Shutdown cut short, then another: where two recorded findings show
 		}
 	}
 	var js []c06Job
@@ -333,6 +343,7 @@ func c06Jobs(thorough bool) []c06Job {
 			js = append(js, c06Job{sc, c, 1, 1})
 		}
 	}
+	js = append(js, c06Job{L12, q2b1, 3, 0}, c06Job{L12, q1b1, 2, 1}, c06Job{L12, q2b2, 2, 1})
 	js = append(js, c06Job{L11, q2b1, 2, 0}, c06Job{L11, q2b2, 2, 0}, c06Job{L11, q2b1, 1, 1})
 	js = append(js, c06Job{L8, q3b2f, 1, 2}, c06Job{L8, q2b1f, 1, 2}, c06Job{L10, q4b2buf1, 2, 1}, c06Job{L10, q2b1, 2, 0}, c06Job{L10, q3b2, 1, 1})
 	return js
